@@ -189,6 +189,38 @@ def signaturesRainbow (k : Nat) : List (List Rank × Bool) :=
   (multisets 13 0 k).map fun rs => (rs, k == 1)
 
 
+
+/-! ### exposed cards in stud (who opens the later rounds) -/
+
+/-- one to four exposed cards: four of a kind 4 > three of a kind 3 > two pair 2 > one pair 1 > no pair 0
+    (straights and flushes do not count), then — it only matters between hands of different sizes, which
+    the game never compares — the number of cards, then the ranks by (multiplicity, rank) descending -/
+def exposedKey (value : Rank → Nat) (ranks : List Rank) (_suited : Bool) : List Nat :=
+  let gs := groupsFrom (ranks.map value) 14
+  let quads := withCount 4 gs
+  let trips := withCount 3 gs
+  let pairs := withCount 2 gs
+  let singles := withCount 1 gs
+  let tiebreak := quads ++ trips ++ pairs ++ singles
+  let cat := if quads.length = 1 then 4 else if trips.length = 1 then 3
+    else if pairs.length = 2 then 2 else if pairs.length = 1 then 1 else 0
+  cat :: ranks.length :: tiebreak
+
+def exposedLabel (key : List Nat) : Nat :=
+  match key.headD 99 with
+  | 4 => 7
+  | c => c
+
+/-- the signatures of `k` distinct cards, `2 ≤ k ≤ 4`: any multiset of ranks unsuited, different ranks
+    also suited -/
+def signaturesUp (k : Nat) : List (List Rank × Bool) :=
+  (multisets 13 0 k).flatMap fun rs =>
+    (rs, false) :: (if strictlyIncreasing rs then [(rs, true)] else [])
+
+/-- … and of one to four distinct cards (one card counts as suited) -/
+def upSigs : List (List Rank × Bool) :=
+  signaturesRainbow 1 ++ signaturesUp 2 ++ signaturesUp 3 ++ signaturesUp 4
+
 /-! ### the families the tables are checked on -/
 
 /-- the label of a category when categories are numbered like the labels (standard ranking) -/
